@@ -30,6 +30,8 @@ def hash_to_range(key, value, f):
 
 
 def hashed_items(key, items):
+    # BIP158: the filter is built from the set of elements
+    items = set(items)
     n = len(items)
     f = n * GOLOMB_M
     result = []
